@@ -26,6 +26,14 @@ def make_replay(prop, ob, ctx):
             rp['input'] = table_diff_input(ctx.repo())
         except Exception as ex:  # pragma: no cover
             rp['search_error'] = str(ex)
+    if (rp['input'] is None or rp['input'].get('kind') == 'raw') and ob['engine'] == 'kani' and str(ob.get('unit', '')).startswith('langid_match'):
+        # no decoder for the matches harness family: look for a concrete pair on the product domain of C11 instead
+        try:
+            found = search_kind('matches', 0)
+            if found:
+                rp['input'] = found
+        except Exception as ex:  # pragma: no cover
+            rp['search_error'] = str(ex)
     if ob.get('standin_input'):
         rp['input'] = ob['standin_input']
     elif ob['engine'] == 'verus':
@@ -224,6 +232,7 @@ SEARCH = [
     (r'from_parts|into_parts', ['fromparts', 'rt']),
     (r'::fmt$|canonicalize|lemma_', ['rt', 'mut', 'inv']),
     (r'ExtensionList::(set_|remove_|clear_|add_|has_|is_empty|tlang)|set_variants|clear_variants|has_variant', ['mut']),
+    (r'::matches$', ['matches']),
     (r'unic_locale_impl::|locale', ['locale', 'rt']),
 ]
 
